@@ -20,10 +20,14 @@ class Injected(OSError):
     pass
 
 
+class InjectedInterrupt(KeyboardInterrupt):
+    """A BaseException that is not an Exception (Ctrl-C, SystemExit, CancelledError...): mode "kbd"."""
+
+
 class Injector:
     def __init__(self, target=None, mode="count", errno_=errno.ENOSPC):
         self.target = target  # index of the effect point to hit, or None
-        self.mode = mode  # "count" | "exc" | "die"
+        self.mode = mode  # "count" | "exc" | "kbd" | "die"
         self.errno = errno_
         self.labels = []
         self.fired = None
@@ -37,6 +41,8 @@ class Injector:
             self.fired = label
             if self.mode == "die":
                 os._exit(9)
+            if self.mode == "kbd":
+                raise InjectedInterrupt(f"injected interrupt at effect point #{idx} ({label})")
             raise Injected(self.errno, f"injected fault at effect point #{idx} ({label})")
 
     # -- proxies -----------------------------------------------------------------------------
